@@ -27,7 +27,8 @@ def wire_family(ctx, prop, scenarios, rule, nontrivial=None, observe_props=None)
     viol = vt.observe(ctx, traces, observe_props or [prop])
     if ctx.extra.get('crashes') and prop not in vt.CRASH_PROPS:
         c = ctx.extra['crashes'][0]
-        raise Infra('the process crashed in scenario %s (%s): inconclusive for %s, see the checks of %s' % (c['scenario'], c['panic'], prop, '/'.join(vt.CRASH_PROPS)))
+        # inconclusive for this property (exit 2 at the end) unless another scenario shows a violation of it
+        ctx.extra['inconclusive'] = 'the process crashed in scenario %s (%s): inconclusive for %s, see the checks of %s' % (c['scenario'], c['panic'], prop, '/'.join(vt.CRASH_PROPS))
     ctx.validated += len(scenarios)
     for s in scenarios:
         es = evs.get(s['id'], [])
@@ -172,6 +173,11 @@ def engine_family(ctx, prop, module, cfg, engine, obs_props, simulate=None):
         if not ret:
             raise Infra('engine scenario %s did not return' % s['id'])
         scr, outs = allowed[s['_key']]
+        if 'err' not in ret[0]:      # synthetic Return of a scenario in which the process died (vt.crash_to_return)
+            drift.append(s['id'])
+            if prop not in vt.CRASH_PROPS:
+                ctx.extra['inconclusive'] = 'the process crashed in scenario %s (%s): inconclusive for %s, see the checks of %s' % (s['id'], ret[0].get('panic'), prop, '/'.join(vt.CRASH_PROPS))
+            continue
         real = _norm_real_out(ret[0])
         if real not in {_norm_spec_out(scr, o) for o in outs}:
             drift.append(s['id'])
@@ -228,8 +234,8 @@ def engines(ctx, prop, cfgs_par, cfgs_ser, obs):
         engine_family(ctx, prop, 'EngineSerialMC', c, 'serial', obs)
 
 def check_C03(ctx):
-    par = ['EngineParallelMC.cfg', 'EngineParallelMC_faults.cfg', 'EngineParallelMC_hi.cfg', 'EngineParallelMC_wide.cfg']
-    ser = ['EngineSerialMC.cfg', 'EngineSerialMC_faults.cfg', 'EngineSerialMC_hi.cfg', 'EngineSerialMC_wide.cfg']
+    par = ['EngineParallelMC.cfg', 'EngineParallelMC_faults.cfg', 'EngineParallelMC_faults3.cfg', 'EngineParallelMC_hi.cfg', 'EngineParallelMC_wide.cfg']
+    ser = ['EngineSerialMC.cfg', 'EngineSerialMC_faults.cfg', 'EngineSerialMC_faults3.cfg', 'EngineSerialMC_hi.cfg', 'EngineSerialMC_wide.cfg']
     if not ctx.quick():
         par.append('EngineParallelMC_4.cfg'); ser.append('EngineSerialMC_4.cfg')
     engines(ctx, 'C03', par, ser, ['C03'])
@@ -350,7 +356,7 @@ def check_C09(ctx):
     vt.write_evidence(ctx, 'exploration', ctx_rule(ctx), exhaustive=False)
 
 def check_C10(ctx):
-    engines(ctx, 'C10', ['EngineParallelMC_faults.cfg'], ['EngineSerialMC_faults.cfg'], ['C10'])
+    engines(ctx, 'C10', ['EngineParallelMC_faults.cfg', 'EngineParallelMC_faults3.cfg'], ['EngineSerialMC_faults.cfg', 'EngineSerialMC_faults3.cfg'], ['C10'])
     rule = ctx_rule(ctx)
     scen = vt.tlc_generate(ctx, 'GenWire', 'C10', 0)
     wire_family(ctx, 'C10', scen, rule, nontrivial=lambda s, es: any(e['event'] == 'Fault' for e in es))
@@ -791,7 +797,7 @@ def check_C13(ctx):
     vt.write_evidence(ctx, 'model_checking', ctx.extra['rule'], exhaustive=True)
 
 def check_C07(ctx):
-    cfgs = ['EngineParallelMC.cfg', 'EngineParallelMC_faults.cfg', 'EngineParallelMC_long.cfg']
+    cfgs = ['EngineParallelMC.cfg', 'EngineParallelMC_faults.cfg', 'EngineParallelMC_faults3.cfg', 'EngineParallelMC_long.cfg']
     if not ctx.quick():
         cfgs += ['EngineParallelMC_4.cfg', 'EngineParallelMC_hi.cfg']
     engines(ctx, 'C07', cfgs, [], ['C07'])
